@@ -884,6 +884,11 @@ func (c *Ctx) ruleTerm(rule string, roots []*ssa.Function, schemaMode bool) {
 		if !minimal {
 			continue
 		}
+		if why := c.chainGuarded(found[k].names, sameOnly); why != "" {
+			c.R.Except(rule, key(rule, "class B", "same input around the reference cycle: "+k), found[k].pos,
+				"recursion that hands the same input round a reference cycle", why)
+			continue
+		}
 		c.R.Bad(rule, key(rule, "class B", "same input around the reference cycle: "+k), found[k].pos,
 			"unbounded recursion: the same input is handed round a reference cycle",
 			"every call on the cycle "+k+" passes its input on unchanged and the cycle goes through a reference dereference; on a recursive reference the call chain never ends (fatal stack overflow, not recoverable)")
@@ -935,6 +940,110 @@ func (c *Ctx) ruleTerm(rule string, roots []*ssa.Function, schemaMode bool) {
 		c.R.Bad(rule, k, c.M.InstrPos(e.site), "recursion through a reference cycle that is not driven by the input",
 			"the call "+c.M.Key(e.from)+" -> "+c.M.Key(e.to)+" hands on data that is not a strict component of the caller's input ("+e.desc+") and lies on a cycle of non-descending calls through the reference dereference in "+c.M.Key(via.from)+"; on a recursive reference the recursion is bounded by nothing")
 	}
+}
+
+// chainGuarded (exception E-CHAINGUARD): a same-input cycle is entered only where a guard method of the same receiver
+// has answered "the chain ends". Checked structurally: one call edge of the cycle is dominated by the false outcome
+// of a call g(recv) with g a bool method of the receiver without data parameters, and g is a loop that keeps the
+// objects it has passed in a slice, returns true where the next object is already in it, and appends it otherwise
+// (so g itself terminates and answers true for every chain that comes back on itself); the next object is of an SDK
+// type. NOT checked by the machine, confirmed by reading: that g walks the same chain the recursion follows (the only
+// property's type, through references, inline objects and scopes). If the guard call is removed, moved behind the
+// hand-over or replaced by a function of another shape, the exception does not apply and the cycle is a violation.
+func (c *Ctx) chainGuarded(names []string, sameOnly map[*ssa.Function][]termEdge) string {
+	onCycle := map[string]bool{}
+	for _, n := range names {
+		onCycle[n] = true
+	}
+	for fn, es := range sameOnly {
+		if !onCycle[c.M.Key(fn)] || len(fn.Params) == 0 {
+			continue
+		}
+		for _, e := range es {
+			if !onCycle[c.M.Key(e.to)] {
+				continue
+			}
+			for _, cond := range core.CondsAt(e.site.Block()) {
+				call, ok := cond.V.(*ssa.Call)
+				if !ok || cond.True {
+					continue
+				}
+				g := call.Call.StaticCallee()
+				if g == nil || len(call.Call.Args) != 1 || call.Call.Args[0] != ssa.Value(fn.Params[0]) || g.Signature.Results().Len() != 1 {
+					continue
+				}
+				if b, isBasic := g.Signature.Results().At(0).Type().Underlying().(*types.Basic); !isBasic || b.Kind() != types.Bool {
+					continue
+				}
+				if c.loopVisitedGuard(g) {
+					return "E-CHAINGUARD: the hand-over " + c.M.Key(fn) + " -> " + c.M.Key(e.to) + " is made only where " + c.M.Key(g) + "(receiver) returned false; that method walks with a list of the objects it has passed, answers true where the next one is already on the list and appends it otherwise. That it walks the chain the recursion follows is confirmed by reading, not by the checker"
+				}
+			}
+		}
+	}
+	return ""
+}
+
+// loopVisitedGuard: g contains a scan of a loop-carried slice that returns true where an element equals an SDK-typed
+// value X, and an append of X to that slice on the way round.
+func (c *Ctx) loopVisitedGuard(g *ssa.Function) bool {
+	for _, b := range g.Blocks {
+		if len(b.Instrs) == 0 {
+			continue
+		}
+		ifi, ok := b.Instrs[len(b.Instrs)-1].(*ssa.If)
+		if !ok {
+			continue
+		}
+		bin, ok := ifi.Cond.(*ssa.BinOp)
+		if !ok || bin.Op != token.EQL {
+			continue
+		}
+		for _, pr := range [][2]ssa.Value{{bin.X, bin.Y}, {bin.Y, bin.X}} {
+			ld, ok := pr[0].(*ssa.UnOp)
+			if !ok {
+				continue
+			}
+			ia, ok := ld.X.(*ssa.IndexAddr)
+			if !ok || !c.isSDKValue(pr[1]) {
+				continue
+			}
+			// the match returns true
+			returnsTrue := false
+			for _, in := range b.Succs[0].Instrs {
+				if r, ok := in.(*ssa.Return); ok && len(r.Results) == 1 {
+					if cst, ok := r.Results[0].(*ssa.Const); ok && cst.Value != nil && cst.Value.String() == "true" {
+						returnsTrue = true
+					}
+				}
+			}
+			if !returnsTrue {
+				continue
+			}
+			// the scanned slice is loop-carried (a phi) and is extended by the same value somewhere in g
+			if _, isPhi := ia.X.(*ssa.Phi); !isPhi {
+				continue
+			}
+			for _, ob := range g.Blocks {
+				for _, oin := range ob.Instrs {
+					app, ok := oin.(*ssa.Call)
+					if !ok {
+						continue
+					}
+					bi, ok := app.Call.Value.(*ssa.Builtin)
+					if !ok || bi.Name() != "append" || len(app.Call.Args) != 2 || app.Call.Args[0] != ia.X {
+						continue
+					}
+					for _, el := range variadicElems(app.Call.Args[1]) {
+						if el == pr[1] {
+							return true
+						}
+					}
+				}
+			}
+		}
+	}
+	return false
 }
 
 // visitedPathGuard: the recursive call e (a function calling itself) passes, for a slice parameter P, the slice
